@@ -30,7 +30,9 @@ Leaves == {JStr(X), JStr(<<>>), JInt(1), JBool(TRUE), JNull, JArr(<<JStr(X), JIn
            \* arrays holding elements that are not scalars next to the scalars searched for
            JArr(<<JStr(X), JObj(<<>>)>>), JArr(<<JObj(<<[k |-> <<98>>, v |-> JStr(X)]>>), JInt(1), JNull>>),
            JArr(<<JArr(<<JStr(X)>>), JBool(TRUE)>>), JArr(<<JFloat(1), JStr(X)>>), JArr(<<JInt(1), JFloat(2)>>), JArr(<<JArr(<<>>)>>),
-           JFloat(1)}
+           JFloat(1),
+           \* integers other than small positive ones: zero, negative, and inside arrays
+           JInt(0), JInt(-1), JArr(<<JInt(-1), JInt(0)>>)}
 Obj1 == {JObj(<<[k |-> k1, v |-> l]>>) : k1 \in Keys, l \in Leaves}
         \cup {JObj(<<[k |-> kk[1], v |-> l1], [k |-> kk[2], v |-> l2]>>) :
                  kk \in {q \in Keys \X Keys : q[1] # q[2]}, l1 \in {JStr(X), JInt(1)}, l2 \in {JStr(X), JObj(<<>>)}}
@@ -87,10 +89,10 @@ CJ(v) == CASE v.t = "obj" -> [o |-> [i \in 1..Len(v.mem) |-> [k |-> v.mem[i].k, 
            [] v.t = "arr" -> [a |-> [i \in 1..Len(v.items) |-> CJ(v.items[i])]]
            [] OTHER -> [absent |-> 1]
 
-Probe == {JStr(X), JInt(1), JBool(TRUE), JNull}
+Probe == {JStr(X), JInt(1), JBool(TRUE), JNull, JInt(0), JInt(-1)}
 FlatCase ==
   LET ps == Paths(b) IN
-  [part |-> "flat", ev |-> CJ(b),
+  [part |-> "flat", ev |-> CJ(b), probes |-> {CJ(q) : q \in Probe},
    leaves |-> {[path |-> p, leaf |-> CJ(Lookup(b, p)),
                 star |-> EventMatch(b, p, <<Star>>, FALSE), lit |-> EventMatch(b, p, X, FALSE),
                 is |-> {CJ(q) : q \in {q \in Probe : PropertyIs(b, p, q)}},
